@@ -773,6 +773,11 @@ C14_References ==
   /\ \A x \in st.contracts : HasBatchKey(st, x.bk) /\ HasClassKey(st, x.ck)
   /\ \A x \in st.origintx : HasClassKey(st, x.ck)
   /\ \A o \in st.orders : HasBatchKey(st, o.bk) /\ HasMarketId(st, o.mid)
+  \* ... and resolve to the RIGHT row: the order's market is the market of its batch's credit type
+  \* (seeded change C14-k caches market ids per ask denomination across credit types)
+  /\ \A o \in st.orders :
+       (HasBatchKey(st, o.bk) /\ HasMarketId(st, o.mid) /\ BatchResolvable(st, BatchByKey(st, o.bk)))
+         => MarketById(st, o.mid).ct = BatchClass(st, BatchByKey(st, o.bk)).ct
   /\ \A k \in st.markets : HasCreditType(st, k.ct)
   /\ \A x \in st.bbal : HasBatchDenom(st, x.denom) /\ \E k \in st.baskets : k.id = x.bid
   /\ \A x \in st.bclasses : HasClassId(st, x.cid) /\ \E k \in st.baskets : k.id = x.bid
